@@ -18,7 +18,12 @@ SPEC = {
              "structured histories (2-4 nodes, 1-3 clients + client id 0, reconnects, oldest-first late closes, refused / tunnel-type "
              "/ repeated handshakes, stray events on closed or unknown ids, id reuse, lifetimes 1 s / 60 s / default 5 min, ticks "
              "0.3 / 0.45 / 1.3 lifetimes so that the boundary instant is never observed); real-clock lifetimes (300 ms, sleeps 110 / "
-             "400 ms, rerun when a sleep overshoots by > 25 ms) on the backends that cannot be fast-forwarded; boundary list. "
+             "400 ms, rerun when a sleep overshoots by > 25 ms) on the backends that cannot be fast-forwarded; boundary list; "
+             "keep-alive words (heartbeats of both connections, reconnect, late close, ticks of 0.45 / 0.7 lifetimes, <= 3 / 5 steps). "
+             "sched (holds-only exploration below the event granularity): the last two events (close||handshake, heartbeat||handshake, "
+             "handshake||handshake on two nodes) run concurrently, every Get/Set/Delete on the shared store is one step of a gated "
+             "store handle, all 2^6 (quick) / 2^8 (thorough) step orders; a schedule whose executed trace has a write of the other "
+             "node between a node's read of the client index and its delete/rewrite is tagged K:index-check-then-act. "
              "non-trivial = at least two events; distinct = distinct case line"),
     "trusted_base": [
         "Lean 4.33 kernel; axioms propext, Classical.choice, Quot.sound only (audited per theorem on every run)",
@@ -35,9 +40,10 @@ SPEC = {
     "assumptions": [
         "scope (built into the event alphabet): connection ids are unique in the cluster, a connection lives on one node and is "
         "used by one client id (re-authentication of a connection under another id is C07); the auth outcome is an input",
-        "granularity: one event = one handler call, events of different nodes do not overlap. The repaired UnregisterConnection / "
-        "RefreshConnection are get-then-delete / get-then-set (the same pattern as DisconnectClientIfMatch); an overlap of an "
-        "old node's cleanup with the new node's registration at storage-call granularity is outside this check",
+        "granularity: one event = one handler call, events of different nodes do not overlap (the property quantifies over "
+        "event histories). Below that granularity the repaired UnregisterConnection / RefreshConnection are get-then-delete / "
+        "get-then-set (the same pattern as DisconnectClientIfMatch): known finding index-check-then-act, forced by the sched "
+        "cases, witness theorems index_check_then_act_witness / refresh_check_then_act_witness",
         "clocks: one cluster clock (node clock skew << lifetime); GetConnectionState's ExpiresAt re-check is subsumed by the "
         "store's own deadline and not modelled; observations exactly at a deadline are not generated (memory: visible at the "
         "deadline, redis: gone)",
